@@ -224,6 +224,7 @@ def feature_cases(spec, tag=''):
         case['cfg'] = {'measure': carver.sort_by, 'maxmod': p['max_n_mod'], 'mfm': _mfm(spec),
                        'dropna': bool(p['dropna']), 'hasdev': Xd is not None, 'hasnan': has_nan}
         case['lexrank'] = lexrank       # index 1 = missing-value key, then buckets 1..K
+        case['fkind'] = d['kind']
         kept = f in carver.features
         case['kept'] = kept
         # ---- history ----
